@@ -15,6 +15,9 @@ RULE = ('corpus; cooccurence: integer images of 2-3 dimensions with 1..64 grey l
         'moments vs the exact integer double sum; integral image vs the exact prefix sum for 10 dtypes. '
         'Non-trivial = image not constant; distinct = distinct protocol line.')
 ASSUMPTIONS = ['cooccurence/haralick: pixel values are non-negative integers (the kernel raises on negatives); array sizes < 2^31',
+               'haralick options: use_x_minus_y_variance / preserve_haralick_bug against the Lean Float formulas at 1e-9 and '
+               'all other entries bit-identical; return_mean / return_mean_ptp = mean / mean ++ ptp over directions at 1e-12; '
+               'the 14th feature (eigenvalues) is not modelled, only that it leaves the first 13 unchanged',
                'haralick: features whose textbook formula is 0/0 (correlation of a matrix with zero variance, information '
                'measure with zero marginal entropy) are not compared; an image without any counted pair raises (documented)',
                'haralick formulas are compared with the Lean Float functions at 1e-9 (log2/exp/sqrt involved); the '
@@ -23,7 +26,9 @@ ASSUMPTIONS = ['cooccurence/haralick: pixel values are non-negative integers (th
                'histograms (2^P bins are enumerated by the implementation), P <= 32 for the code mapping; LBP sampling '
                '(interpolate.shift) is not part of this check, only the mapping/histogram',
                'zernike: centre given with dyadic coordinates (exact rotation of the coordinate grid); tolerance 1e-9 '
-               'relative to max(1, |z|); with the default centre of mass only power-of-two intensity scalings are used',
+               'relative to max(1, |z|); with the default centre of mass only power-of-two intensity scalings are used; '
+               'the Lean Float model of the kernel (znlG) and of zernike_moments (zernikeAbs) is compared with the real '
+               '_zernike.znl / zernike_moments at 1e-9 (pow is libm on both sides, np.sum is pairwise), the selection mask exactly',
                'moments: natural-number powers; integer images and centres compared with the exact integer sum at 1e-12 '
                'relative to the sum of absolute terms',
                'integral: integer dtypes wrap modulo 2^bits (C semantics); float images with integer values below 2^53 exactly, '
@@ -185,7 +190,7 @@ def _eval_haralick(case):
     m = int(f.max()) + 1
     drv = core.drive([f"c19 kind=haralick shape={gen.enc_shape(f.shape)} data={gen.enc_arr(case['data'])} m={m} "
                       f"dist={dist} iz={iz}"])[0]
-    F = core.floats(drv['feats']).reshape(ndirs, 17)
+    F = core.floats(drv['feats']).reshape(ndirs, 19)
     for d in range(ndirs):
         vx, vy, hx, hy = F[d, 13:17]
         for k in range(13):
@@ -200,7 +205,50 @@ def _eval_haralick(case):
                 break
         if findings:
             break
+    if not findings:
+        findings.extend(_haralick_options(mf, f, H, F, iz, dist, ndirs, same))
     return dict(findings=findings, nontrivial=bool(f.min() != f.max()), sig=json.dumps(case, sort_keys=True), tags=tags)
+
+
+def _haralick_options(mf, f, H, F, iz, dist, ndirs, same):
+    """the documented options: `use_x_minus_y_variance` replaces f10 by VAR[|x-y|] (Lean varG of p_{x-y}),
+    `preserve_haralick_bug` centres f7 at the sum entropy f8 (Lean sumVarG ... f8) - every other entry unchanged bit for
+    bit; `return_mean` / `return_mean_ptp` are the mean / mean ++ (max - min) over the directions of the default result.
+    (`compute_14th_feature` needs an eigen-decomposition and is not modelled: only the first 13 columns are compared.)"""
+    out = []
+    with warnings.catch_warnings():
+        warnings.simplefilter('ignore')
+        kw = dict(ignore_zeros=bool(iz), distance=dist)
+        Hv = mf.haralick(f, use_x_minus_y_variance=True, **kw)
+        Hb = mf.haralick(f, preserve_haralick_bug=True, **kw)
+        Hm = mf.haralick(f, return_mean=True, **kw)
+        Hp = mf.haralick(f, return_mean_ptp=True, **kw)
+        try:
+            H14 = mf.haralick(f, compute_14th_feature=True, **kw)
+        except Exception:       # eigen-decomposition of a degenerate correlation matrix: outside the statement
+            H14 = None
+    for name, Ho, col, mcol in (('use_x_minus_y_variance', Hv, 9, 17), ('preserve_haralick_bug', Hb, 6, 18)):
+        if Ho.shape != H.shape:
+            out.append(dict(kind='property', key=f'haralick:option:{name}:shape', detail=dict(shape=list(Ho.shape))))
+            continue
+        rest = [k for k in range(13) if k != col]
+        if not same(Ho[:, rest], H[:, rest]):
+            out.append(dict(kind='property', key=f'haralick:option:{name}:other-features-changed', detail={}))
+        for d in range(ndirs):
+            a, b = float(Ho[d, col]), float(F[d, mcol])
+            if not (abs(a - b) <= 1e-9 * max(1.0, abs(b))):
+                out.append(dict(kind='property', key=f'haralick:option:{name}:formula', detail=dict(direction=d, got=a, textbook=b)))
+                break
+    mean = H.mean(axis=0)
+    ptp = H.max(axis=0) - H.min(axis=0)
+    close = lambda a, b: a.shape == b.shape and bool(np.all((np.abs(a - b) <= 1e-12 * np.maximum(1.0, np.abs(b))) | (np.isnan(a) & np.isnan(b))))
+    if not close(Hm, mean):
+        out.append(dict(kind='property', key='haralick:option:return_mean', detail=dict(got=Hm.tolist(), want=mean.tolist())))
+    if not close(Hp, np.concatenate((mean, ptp))):
+        out.append(dict(kind='property', key='haralick:option:return_mean_ptp', detail=dict(got=Hp.tolist())))
+    if H14 is not None and (H14.shape != (ndirs, 14) or not same(H14[:, :13], H)):
+        out.append(dict(kind='property', key='haralick:option:compute_14th_feature:first-13-changed', detail=dict(shape=list(H14.shape))))
+    return out
 
 
 # ---------------------------------------------------------------------------------------------- LBP
@@ -370,6 +418,84 @@ def _zernike_weights_tie(im, R, deg, cm, z, scale):
     return out
 
 
+def _zernike_model_tie(im, R, deg, cm, z):
+    """the Lean Float instances of `znlG` / `zernikeZ` / `zernikeAbs` (the definitions `C19_zernike_rot90` is about)
+    against the real kernel `_zernike.znl` (same D, A, P arrays, built with the numpy statements of zernike.py) and the
+    real `zernike_moments`; `pow` is libm on both sides: 1e-9, never bit for bit. The selection mask uses only
+    + - * / sqrt and must agree exactly."""
+    from mahotas.features import _zernike
+    from mahotas.center_of_mass import center_of_mass
+    c0, c1 = cm if cm is not None else center_of_mass(im)
+    c0, c1 = float(c0), float(c1)
+    Y, X = np.mgrid[:im.shape[0], :im.shape[1]]
+    P = im.ravel()
+
+    def rescale(C, centre):
+        Cn = C.astype(np.double)
+        Cn -= centre
+        Cn /= R
+        return Cn.ravel()
+    Yn, Xn = rescale(Y, c0), rescale(X, c1)
+    Dn = Xn ** 2
+    Dn += Yn ** 2
+    np.sqrt(Dn, Dn)
+    np.maximum(Dn, 1e-9, out=Dn)
+    k = (Dn <= 1.) & (P > 0)
+    out = []
+    if not k.any():
+        return out
+    frac = np.array(P[k], np.double)
+    frac /= frac.sum()
+    Dk = Dn[k]
+    An = np.empty(Dk.shape, np.complex128)
+    An.real = (Xn[k] / Dk)
+    An.imag = (Yn[k] / Dk)
+    nls = [(n, l) for n in range(deg + 1) for l in range(n + 1) if (n - l) % 2 == 0]
+    pick = nls if len(nls) <= 9 else [nls[0], nls[1], nls[2], nls[3], nls[len(nls) // 2], nls[-4], nls[-3], nls[-2], nls[-1]]
+    lines, refs = [], []
+    for (n, l) in pick:
+        Al = np.ascontiguousarray(An ** l) if l >= 2 else (An.copy() if l == 1 else np.ones_like(An))
+        refs.append(complex(_zernike.znl(Dk, Al, frac, n, l)))
+        lines.append(f"c19 kind=znl d={core.fmt_floats(Dk)} are={core.fmt_floats(Al.real.copy())} "
+                     f"aim={core.fmt_floats(Al.imag.copy())} p={core.fmt_floats(frac)} n={n} l={l}")
+    H, W = im.shape
+    full = (f"c19 kind=zernike shape={H},{W} data={core.fmt_floats(P.astype(np.float64))} "
+            f"cm={core.fmt_floats(np.array([c0, c1]))} radius={core.fmt_floats(np.array([float(R)]))} degree={deg}")
+    rim = np.ascontiguousarray(np.rot90(im))
+    rot = (f"c19 kind=zernike shape={W},{H} data={core.fmt_floats(rim.ravel().astype(np.float64))} "
+           f"cm={core.fmt_floats(np.array([W - 1 - c1, c0]))} radius={core.fmt_floats(np.array([float(R)]))} degree={deg}")
+    drv = core.drive(lines + [full, rot])
+    for (n, l), ref, d in zip(pick, refs, drv):
+        zm = core.floats(d['z'])
+        zm = complex(zm[0], zm[1])
+        if not abs(zm - ref) <= 1e-9 * max(1.0, abs(ref)):
+            out.append(dict(kind='model', key='zernike:znl-model', detail=dict(n=n, l=l, real=[ref.real, ref.imag], model=[zm.real, zm.imag])))
+            break
+    dfull, drot = drv[-2], drv[-1]
+    if int(dfull['nsel']) != int(k.sum()):
+        out.append(dict(kind='model', key='zernike:selection-model', detail=dict(real=int(k.sum()), model=int(dfull['nsel']))))
+        return out
+    am = core.floats(dfull['abs'])
+    tol = 1e-9 * max(1.0, float(np.max(np.abs(z))))
+    if am.shape != z.shape or not float(np.max(np.abs(am - z))) <= tol:
+        out.append(dict(kind='model', key='zernike:moments-model', detail=dict(
+            maxdiff=float(np.max(np.abs(am - z))) if am.shape == z.shape else None, real=z.tolist()[:6], model=am.tolist()[:6])))
+    # the Float instance of C19_zernike_rot90: z(rot90 im) = i^l z(im) up to rounding; exact when the centre moves exactly
+    if cm is not None:
+        zz = core.floats(dfull['z']).reshape(-1, 2)
+        zr = core.floats(drot['z']).reshape(-1, 2)
+        ok = zz.shape == zr.shape == (len(nls), 2)
+        if ok:
+            for (n, l), a, b in zip(nls, zz, zr):
+                want = complex(a[0], a[1]) * (1j ** l)
+                if not abs(complex(b[0], b[1]) - want) <= tol:
+                    ok = False
+                    break
+        if not ok:
+            out.append(dict(kind='model', key='zernike:model-rot90', detail=dict(z=zz.tolist()[:4], zrot=zr.tolist()[:4])))
+    return out
+
+
 def _eval_zernike(case):
     import mahotas.features as mf
     im = np.array(case['data'], dtype=np.float64).reshape(case['shape'])
@@ -399,6 +525,7 @@ def _eval_zernike(case):
         # and the REAL kernel _zernike.znl fed with them must reproduce the real zernike_moments
         f = _zernike_weights_tie(im, R, deg, cm, z, case['scale'])
         findings.extend(f)
+        findings.extend(_zernike_model_tie(im, R, deg, cm, z))
         s = case['scale']
         zs = np.asarray(mf.zernike_moments(im * s, R, deg, cm=cm))
         if zs.shape != z.shape or not float(np.max(np.abs(zs - z))) <= tol:
